@@ -42,6 +42,18 @@ pub fn store_set(id: u32) -> (Vec<(&'static str, Vec<u8>)>, Vec<(&'static str, V
             vec![("a.txt", b"Hello".to_vec()), ("com.x/y/z.bin", vec![0, 255, 7]), ("empty.bin", vec![])],
             vec![("i1.png", png("1")), ("i2.png", png("two")), ("Cover.PNG", png("cover")), ("sketch", png("noext"))],
         ),
+        3 => (
+            // dot-named files and directories at every depth: everything below data/ is data
+            vec![
+                (".gitkeep", vec![]),
+                (".notdef.bin", vec![1, 2, 3]),
+                ("x/.state", b"s".to_vec()),
+                (".cache/a/b.bin", b"cached".to_vec()),
+                ("plain.txt", b"p".to_vec()),
+                ("deep/.hidden/.x/y", b"y".to_vec()),
+            ],
+            vec![(".thumb.png", png("thumb")), ("normal.png", png("n")), (".png", png("dotpng"))],
+        ),
         _ => (
             vec![
                 ("a.txt", b"A".to_vec()),
@@ -196,6 +208,20 @@ fn craft_tree(src: &Path, craft: u32) {
                 &format!("<array><string>absolute</string><string>{}</string></array></array>\n</plist>", abs.display()),
             );
         }
+        14 => {
+            // store files whose names are legal but not valid UTF-8 (and two that a lossy conversion would merge)
+            use std::os::unix::ffi::OsStrExt;
+            let put = |dir: &str, name: &[u8], bytes: &[u8]| {
+                let p = src.join(dir).join(std::ffi::OsStr::from_bytes(name));
+                std::fs::create_dir_all(p.parent().unwrap()).unwrap();
+                std::fs::write(p, bytes).unwrap();
+            };
+            put("data", b"caf\xE9.txt", b"latin1");
+            put("data", b"\xFF.dat", b"ff");
+            put("data", b"\xFE.dat", b"fe");
+            put("data", b"d\xE9r/x.bin", b"nested");
+            put("images", b"im\xE9.png", &png("latin1"));
+        }
         12 => {
             // the default layer spelled with a trailing separator, another one with a `./` prefix
             edit(&src.join("layercontents.plist"), "<string>glyphs</string>", "<string>glyphs/</string>");
@@ -237,11 +263,68 @@ fn craft_font(font: &mut Font, tr: &mut Track, craft: u32) {
         8 => {
             ins(font, tr, 'i', "..", png("dd"));
         }
+        15 => {
+            ins_b(font, tr, 'd', b"caf\xE9.txt", b"latin1".to_vec());
+            ins_b(font, tr, 'd', b"\xFF.dat", b"ff".to_vec());
+            ins_b(font, tr, 'd', b"\xFE.dat", b"fe".to_vec());
+            ins_b(font, tr, 'd', b"d\xE9r/x.bin", b"nested".to_vec());
+            ins_b(font, tr, 'i', b"im\xE9.png", png("latin1"));
+        }
         9 => {
             ins(font, tr, 'd', "../../../esc3.txt", b"esc3".to_vec());
         }
         _ => {}
     }
+}
+
+/// saves of OTHER fonts that fail in different places: 1 `Uid` in a glyph lib (encode error in the middle of a glyph),
+/// 2 `Uid` in the font lib, 3 `Uid` in a layer lib, 4 a good glyph followed by a `Uid` glyph, 5 refused (format version),
+/// 6 refused (groups), 7 a store entry that is not a PNG (lazy), 8 `public.objectLibs` in a glyph lib
+fn prior_failed_save(n: u32, at: &Path) {
+    if n == 0 {
+        return;
+    }
+    rm_rf(at);
+    let mut tr = Track::default();
+    let mut f = api_font(3, &mut tr);
+    let uid = || plist::Value::Uid(plist::Uid::new(7));
+    let mut rich_glyph = |name: &str| {
+        let mut g = Glyph::new(name);
+        g.width = 123.0;
+        g.lib.insert("com.test.uid".into(), uid());
+        g
+    };
+    match n {
+        1 => f.default_layer_mut().insert_glyph(rich_glyph("unwritable")),
+        2 => {
+            f.lib.insert("com.test.uid".into(), uid());
+        }
+        3 => {
+            f.default_layer_mut().lib.insert("com.test.uid".into(), uid());
+        }
+        4 => {
+            f.default_layer_mut().insert_glyph(Glyph::new("0first"));
+            f.default_layer_mut().insert_glyph(rich_glyph("zz.unwritable"));
+        }
+        5 => f.meta.format_version = norad::FormatVersion::V2,
+        6 => {
+            let mut t2 = Track::default();
+            groups_variant(&mut f, &mut t2, 1);
+        }
+        8 => {
+            let mut g = Glyph::new("objlibs");
+            g.lib.insert("public.objectLibs".into(), plist::Value::Dictionary(Default::default()));
+            f.default_layer_mut().insert_glyph(g);
+        }
+        _ => {
+            // 7: a second layer whose only glyph cannot be encoded
+            if let Ok(l) = f.layers.get_or_create_layer("broken") {
+                l.insert_glyph(rich_glyph("only"));
+            }
+        }
+    }
+    let _ = guarded(|| f.save(at));
+    rm_rf(at);
 }
 
 pub fn observe_ext(toks: &[&str], scratch: &Path, fresh: bool) -> String {
@@ -278,6 +361,18 @@ pub fn observe_ext(toks: &[&str], scratch: &Path, fresh: bool) -> String {
                 let _ = std::fs::remove_file(src.join("layercontents.plist"));
             }
         }
+        let meta = num(toks, "meta");
+        if meta % 3 != 0 {
+            // a third-party tree: foreign creator / no creator at all
+            let mi = src.join("metainfo.plist");
+            let text = std::fs::read_to_string(&mi).unwrap();
+            let text = if meta % 3 == 1 {
+                text.replace("org.linebender.norad", "com.example.othertool")
+            } else {
+                text.replace("<key>creator</key>", "").replace("<string>org.linebender.norad</string>", "")
+            };
+            std::fs::write(&mi, text).unwrap();
+        }
         if num(toks, "craft") == 13 {
             // hand-written kerning.plist whose only first glyph has no seconds
             std::fs::write(
@@ -287,7 +382,7 @@ pub fn observe_ext(toks: &[&str], scratch: &Path, fresh: bool) -> String {
             .unwrap();
         }
         // what is on disk below data/ and images/ when the font is loaded (independent of norad's own listing)
-        for (rel, kind, _) in snapshot(&src) {
+        for (rel, kind, _) in snapshot_b(&src) {
             if kind == 'f' {
                 if let Some(k) = rel.strip_prefix("data/") {
                     disk_keys.push(('d', k.to_string()));
@@ -336,6 +431,16 @@ pub fn observe_ext(toks: &[&str], scratch: &Path, fresh: bool) -> String {
         // the glyph is in memory now; remove the file so that re-creating it outside the target is visible
         let _ = std::fs::remove_file(src.parent().unwrap().join("esc.glif"));
     }
+    // meta shapes: creator norad / foreign / none, with and without a minor version (the refusals must not depend on it)
+    let meta = num(toks, "meta");
+    match meta % 3 {
+        1 => font.meta.creator = Some("com.example.othertool".into()),
+        2 => font.meta.creator = None,
+        _ => {}
+    }
+    if meta >= 3 {
+        font.meta.format_version_minor = 1;
+    }
     make_invalid(&mut font, &mut tr, kinds);
     fontinfo_variant(&mut font, num(toks, "fi"));
     groups_variant(&mut font, &mut tr, num(toks, "gr"));
@@ -348,7 +453,7 @@ pub fn observe_ext(toks: &[&str], scratch: &Path, fresh: bool) -> String {
             if q[0] == "dr" || q[0] == "ir" {
                 let kind = if q[0] == "dr" { 'd' } else { 'i' };
                 let key = unhexs(q[1]);
-                disk_keys.retain(|k| !(k.0 == kind && k.1 == key));
+                disk_keys.retain(|k| !(k.0 == kind && k.1 == esc(key.as_bytes())));
             }
         }
     }
@@ -375,6 +480,8 @@ pub fn observe_ext(toks: &[&str], scratch: &Path, fresh: bool) -> String {
         2 => target.parent().unwrap().join("..").join("m").join(target.file_name().unwrap()),
         _ => target.clone(),
     };
+    // process history: an unrelated save that FAILS on this thread right before the observed one
+    prior_failed_save(num(toks, "prior"), &scratch.join("prior.ufo"));
     let r = save_result_opt(&font, &spelled, num(toks, "wo"));
     let post_tok = tree_token(&sb);
     let mut extra = String::new();
@@ -383,14 +490,20 @@ pub fn observe_ext(toks: &[&str], scratch: &Path, fresh: bool) -> String {
         let fsb = scratch.join("fresh/o/m");
         rm_rf(&scratch.join("fresh"));
         std::fs::create_dir_all(&fsb).unwrap();
-        let r2 = save_result_opt(&font, &fsb.join("f.ufo"), num(toks, "wo"));
-        let same = r == "ok" && r2 == "ok" && snapshot(&target) == snapshot(&fsb.join("f.ufo"));
+        // ... and on a FRESH THREAD (no per-thread state of earlier saves of this process can reach it)
+        let r2 = {
+            let f2 = font.clone();
+            let dst = fsb.join("f.ufo");
+            let wo = num(toks, "wo");
+            std::thread::spawn(move || save_result_opt(&f2, &dst, wo)).join().unwrap_or_else(|_| "panic".to_string())
+        };
+        let same = r == "ok" && r2 == "ok" && snapshot_b(&target) == snapshot_b(&fsb.join("f.ufo"));
         extra = format!(" FRESH={}:{}", r2, if same { "same" } else { "diff" });
         rm_rf(&scratch.join("fresh"));
         if r == "ok" && target.is_dir() {
             // optional files that are present but hold an EMPTY top-level container (read with the plist crate, not norad)
             let mut empties: Vec<String> = Vec::new();
-            for (rel, kind, bytes) in snapshot(&target) {
+            for (rel, kind, bytes) in snapshot_b(&target) {
                 if kind != 'f' {
                     continue;
                 }
@@ -416,11 +529,11 @@ pub fn observe_ext(toks: &[&str], scratch: &Path, fresh: bool) -> String {
                     let r3 = save_result_opt(&f2, &rs.join("r.ufo"), num(toks, "wo"));
                     if r3 != "ok" {
                         format!("save-{}", r3.replace(':', "-"))
-                    } else if snapshot(&target) == snapshot(&rs.join("r.ufo")) {
+                    } else if snapshot_b(&target) == snapshot_b(&rs.join("r.ufo")) {
                         "same".to_string()
                     } else {
-                        let a = snapshot(&target);
-                        let b = snapshot(&rs.join("r.ufo"));
+                        let a = snapshot_b(&target);
+                        let b = snapshot_b(&rs.join("r.ufo"));
                         let an: Vec<&String> = a.iter().map(|e| &e.0).collect();
                         let bn: Vec<&String> = b.iter().map(|e| &e.0).collect();
                         if an != bn { "diff-paths".to_string() } else { "diff-bytes".to_string() }
@@ -597,6 +710,30 @@ pub fn gen(tier: &str, seed: u64, out: &mut dyn Write) {
             for load in 0..2 {
                 emit(out, &scratch, &format!("rich={} load={} stores=1 sabot=0 kinds={} pre=0 anc={} e=", rng.below(32), load, k, anc));
             }
+        }
+    }
+    // round 4: dot-named files and directories at every depth of data/ and images/ (in place, elsewhere, after partial
+    // loads, with edits); every refusal kind x every meta shape; store names that are not valid UTF-8
+    for &pre in &[5u32, 5, 0, 2, 3] {
+        for &rich in &[0u32, 31] {
+            emit(out, &scratch, &format!("rich={} load=1 stores=3 sabot=0 kinds=0 pre={} e=", rich, pre));
+        }
+    }
+    emit(out, &scratch, &format!("rich=7 load=1 stores=3 sabot=0 kinds=0 pre=5 e=di.{}.w1,dr.{}", hexs(".new/.x"), hexs(".gitkeep")));
+    emit(out, &scratch, "rich=7 load=1 stores=3 sabot=0 kinds=0 pre=5 part=1 e=");
+    emit(out, &scratch, "rich=7 load=1 stores=3 sabot=0 kinds=0 pre=5 legacy=2 e=");
+    for meta in 1..=5 {
+        for &k in &[1u32, 1 | 64, 2, 4, 8, 32] {
+            for &(pre, load) in &[(2u32, 0u32), (5, 1), (0, 1), (1, 0)] {
+                emit(out, &scratch, &format!("rich={} load={} stores=1 sabot=0 kinds={} pre={} meta={} e=", rng.below(16), load, k, pre, meta));
+            }
+        }
+        emit(out, &scratch, &format!("rich=31 load=1 stores=1 sabot=1 kinds=0 pre=2 meta={} e=", meta));
+        emit(out, &scratch, &format!("rich=31 load=1 stores=2 sabot=0 kinds=0 pre=5 meta={} e=", meta));
+    }
+    for craft in 14..=15 {
+        for &pre in &[5u32, 0, 2] {
+            emit(out, &scratch, &format!("rich=3 load=1 stores=1 sabot=0 kinds=0 pre={} craft={} e=", pre, craft));
         }
     }
     // in-place histories: tree -> load -> edits -> save onto the source
